@@ -18,6 +18,7 @@ import Yld.Proofs.PyTop
 import Yld.Proofs.PyDeep
 import Yld.Proofs.Activation
 import Yld.Proofs.WFPreserved
+import Yld.Proofs.EndToEnd
 import Std.Data.String.ToNat
 namespace Yld.C01
 
@@ -176,5 +177,24 @@ theorem well_formedness_is_invariant (e : Engine) (h : e.WF) :
   ⟨fun m cs ow => wf_load e h m cs ow, fun name arity p hp => wf_register e h name arity p hp, wf_clear e h,
    fun fuel name args app => wf_assertFact e h fuel name args app,
    fun mode fuel name args sched ha => wf_query e h mode fuel name args ha sched⟩
+
+/-- **C01, end to end inside the model.** For a well-formed engine whose definitions come from the
+    front end, with every predicate run by interpreting the Python text the compiler prints for it,
+    a query over allocated variables records the same answers, in the same order with the same
+    multiplicity, and ends in the same way as under the reference semantics of the clause bodies with
+    the textbook clause activation — unless one of the two runs is cut off by the fuel or creates a
+    cyclic term. -/
+theorem printed_python_computes_prologs_answers (e : Engine) (hwf : e.WF) (hsrc : SrcDefs e.defs)
+    (hpy : DefsPyOK (e.withMode .compiled).defs) (f : Nat) (name : String) (args : List Term)
+    (hargs : ArgsScoped e args) (sched : Sched)
+    (h1 : ((e.withMode .reference).query .reference f name args sched).2.ending ≠ some .oof)
+    (h2 : ((e.withMode .compiled).query .compiled f name args sched true).2.ending ≠ some .oof)
+    (hc1 : ((e.withMode .reference).query .reference f name args sched).2.cyc = false)
+    (hc2 : ((e.withMode .compiled).query .compiled f name args sched true).2.cyc = false) :
+    ((e.withMode .compiled).query .compiled f name args sched true).2.answers
+      = ((e.withMode .reference).query .reference f name args sched).2.answers ∧
+    ((e.withMode .compiled).query .compiled f name args sched true).2.ending
+      = ((e.withMode .reference).query .reference f name args sched).2.ending :=
+  printed_text_has_textbook_semantics e hwf hsrc hpy f name args hargs sched h1 h2 hc1 hc2
 
 end Yld.C01
